@@ -78,3 +78,22 @@ def supported_enzymes():
             continue
         out.append(e)
     return out
+
+
+def three_prime_enzymes():
+    """single-cut, non-palindromic, unambiguous site, both cuts downstream of the site, 3' overhang: the cutters
+    signature-typed part classes support but the generic classes do not (known finding F9)"""
+    import re
+    out = []
+    for e in sorted(Restriction.AllEnzymes, key=str):
+        try:
+            if (e.is_blunt() or e.is_unknown() or not e.is_3overhang() or e.is_palindromic() or e.cut_twice()):
+                continue
+        except Exception:
+            continue
+        if not re.fullmatch("[ACGT]+", e.site):
+            continue
+        if e.fst5 - len(e.site) < 0 or e.fst3 is None:
+            continue
+        out.append(e)
+    return out
